@@ -112,6 +112,17 @@ def run(ctx):
         for padding, stride, rd, ld, flags in option_box(D, Nb):
             jobs.append((ctx.repo, "convolve", D, Nb, (3,) * D, 1, 0, 1, 2, 1, flags, stride, padding, ld, rd))
             jobs.append((ctx.repo, "convolve_contract", D, Nb, (3,) * D, 1, 1, 1, 1, 2, flags, stride, padding, ld, rd))
+    # degenerate sizes, where special-case fast paths live: point-wise filters (every side 1), filters with one side 1,
+    # and images with an extent of 1 -- the whole shared option box again (a 1-tap filter makes these cheap)
+    for D in (2, 3) if th else (2,):
+        for Nb, Mb in (((4, 5), (1, 1)), ((3, 1), (1, 1)), ((4, 3), (1, 3))) if D == 2 else (((3, 4, 3), (1, 1, 1)), ((3, 2, 3), (3, 1, 1))):
+            for padding, stride, rd, ld, flags in option_box(D, Nb, M=max(Mb)):
+                if isinstance(padding, str) and padding in ("TORUS", "SAME") and ld is not None:
+                    continue
+                jobs.append((ctx.repo, "convolve", D, Nb, Mb, 1, 0, 1, 2, 2, flags, stride, padding, ld, rd))
+                if Mb == (1,) * D:
+                    jobs.append((ctx.repo, "convolve_contract", D, Nb, Mb, 1, 1, 2, 1, 2, flags, stride, padding, ld, rd))
+                    jobs.append((ctx.repo, "convolve", D, Nb, Mb, 0, 0, 1, 1, 1, flags, stride, padding, ld, rd))
     for D in (2, 3):
         N = (4, 5) if D == 2 else (3, 4, 3)
         flag_sets = list(itertools.product((True, False), repeat=D)) if (th or D == 2) else [(True, False, True), (False, False, False)]
